@@ -106,6 +106,10 @@ func newWorld(t testing.TB, idx int, stage ...string) (w *world, err error) {
 	hc := vchain.HistoryCfg{Idx: idx, Blocks: 4, NoQuiet: true}
 	if len(stage) > 0 && stage[0] != "" {
 		hc.Proto, hc.PName = partialForks(stage[0]), "forks-up-to-"+stage[0]
+	} else if name, _ := vchain.ProtoFor(idx); strings.HasPrefix(name, "forks-up-to-") {
+		// the effect catalogues of the twin sessions assume every native contract
+		// is active: partial-hardfork chains are used only where asked for
+		hc.PName, hc.Proto = vchain.ProtoFor(idx + 1)
 	}
 	w.h = vchain.BuildHistory(t, hc)
 	w.A = w.h.P
